@@ -84,13 +84,45 @@ fn run(bytes: &[u8], expect_cp: u32) {
 #[kani::proof]
 #[kani::unwind(10)]
 #[kani::stub(alloc::fmt::format, stub_format)]
-fn esc_char_ascii() {
+fn esc_char_ascii_control() {
+    // U+0000..U+001F: every one of them must be escaped
     let b: u8 = kani::any();
-    kani::assume(b < 0x80);
+    kani::assume(b < 0x20);
+    kani::cover!(b == b'\n', "must: newline");
+    kani::cover!(b == 0x01, "must: control character without a short escape");
+    kani::cover!(b == 0x0b, "must: vertical tab");
+    run(&[b], b as u32);
+}
+
+#[kani::proof]
+#[kani::unwind(10)]
+#[kani::stub(alloc::fmt::format, stub_format)]
+fn esc_char_ascii_printable() {
+    // U+0020..U+007F: quote and backslash escaped, everything else unchanged
+    let b: u8 = kani::any();
+    kani::assume(b >= 0x20 && b < 0x80);
     kani::cover!(b == b'"', "must: quote");
-    kani::cover!(b == 0x01, "must: control character");
+    kani::cover!(b == b'\\', "must: backslash");
     kani::cover!(b == b'a', "must: plain letter");
     run(&[b], b as u32);
+}
+
+// a plain first character followed by any ASCII character: the second one is escaped as
+// it would be alone (no state carried over from the first)
+#[kani::proof]
+#[kani::unwind(12)]
+#[kani::stub(alloc::fmt::format, stub_format)]
+fn esc_plain_then_any_ascii() {
+    let b: u8 = kani::any();
+    kani::assume(b < 0x80);
+    let buf = [b'a', b];
+    let s = unsafe { std::str::from_utf8_unchecked(&buf) };
+    let out = escape_json_string(s);
+    let o = out.as_bytes();
+    assert!(o.len() >= 2 && o[0] == b'a', "C20: escape_json_string changed a plain leading character");
+    assert!(decode_one(&o[1..]) == Some(b as u32), "C20: second character not escaped to a valid JSON string body");
+    kani::cover!(b == 0x1f, "must: control character in second position");
+    std::mem::forget(out);
 }
 
 // Probed and dropped (DESIGN.md E15): the same obligation for 2-, 3- and 4-byte characters and for
